@@ -34,7 +34,7 @@ def run(req):
                     await s.send(Sample(t0 + timedelta(seconds=sec), Current.from_amperes(100.0 * (k + 1) + sec)))
         got = []
         for _ in range(3):
-            got.append(await asyncio.wait_for(out.receive(), timeout=2.0))
+            got.append(await asyncio.wait_for(out.receive(), timeout=10.0))
         await eng._stop()  # pylint: disable=protected-access
         return got
 
